@@ -436,7 +436,7 @@ class Gen:
                 elif it[0] == "sigshim":
                     names.add(it[3])
                 elif it[0] == "impl":
-                    names.update(it[3])
+                    names.update(n_.rstrip("?") for n_ in it[3] if n_.rstrip("?") not in getattr(self, "gone", set()))
             for lfs in self.unit.get("lifts", {}).values():
                 names.update(lf["name"] for lf in lfs)
             names.update(getattr(self, "auto_pulled", []))
@@ -870,6 +870,21 @@ class Gen:
                 hdr = opts.get("header") or ("impl %s {" % it[2] if not opts.get("trait") else "impl %s for %s {" % (opts["trait"], it[2]))
                 self.emit(hdr)
                 for fnname in it[3]:
+                    if fnname.endswith("?"):
+                        # optional member: a small helper that an edit may rename or dissolve. If it is gone, its contract goes
+                        # with it (recorded in the fidelity log) and whatever replaced it is inlined / pulled in where it is called
+                        fnname = fnname[:-1]
+                        try:
+                            self.src(it[1]).find_fn(fnname, it[2], opts.get("trait"))
+                        except (ParseError, Undecided):
+                            key_ = it[2] + "::" + fnname
+                            if key_ in self.contracts:
+                                self.used_contracts.add(key_)
+                            self.fidelity.append(dict(rule="optional-fn", file=self.src(it[1]).path, line=0, item=key_, before="(listed as optional)",
+                                                      after="not present in the source any more: its contract is not checked", trusted="nothing"))
+                            self._known = None
+                            self.gone = getattr(self, "gone", set()) | {fnname}
+                            continue
                     self.emit_fn(it[1], fnname, container=it[2], trait=opts.get("trait"), indent="    ",
                                  rules=opts.get("rules"))
                 self.emit("}")
